@@ -216,7 +216,13 @@ class Printer:
             self.emit(f'if ({expr_str(s[1])}) {inner}', path)
         elif k == 'select':
             self.emit(f'select case ({expr_str(s[1])})', path)
+            dpos = s[4] if len(s) > 4 else None     # textual position of CASE DEFAULT (None = last)
             for n, (items, body) in enumerate(s[2]):
+                if s[3] is not None and dpos == n:
+                    self.ind += 2
+                    self.emit('case default')
+                    self.body(s[3], path + (('b', 'default'),))
+                    self.ind -= 2
                 its = []
                 for it in items:
                     if it[0] == 'val':
@@ -227,7 +233,7 @@ class Printer:
                 self.emit(f'case ({", ".join(its)})')
                 self.body(body, path + (('b', n),))
                 self.ind -= 2
-            if s[3] is not None:
+            if s[3] is not None and (dpos is None or dpos >= len(s[2])):
                 self.ind += 2
                 self.emit('case default')
                 self.body(s[3], path + (('b', 'default'),))
@@ -248,6 +254,8 @@ class Printer:
             self.emit('end associate')
         elif k == 'call':
             self.emit(f'call {s[1]}({", ".join(expr_str(a) for a in s[2])})', path)
+        elif k == 'callshadow':
+            self.emit(f'call ext({expr_str(s[1])}, {expr_str(s[2])})', path)
         elif k == 'exit':
             self.emit('exit' + (f' {s[1]}' if s[1] else ''), path)
         elif k == 'cycle':
@@ -268,6 +276,18 @@ class Printer:
             raise ValueError(s)
 
 
+SHADOW = '''  subroutine ext(a, b)
+    integer, intent(in) :: a
+    integer, intent(inout) :: b
+    b = b + 3*a - 1
+  end subroutine ext
+'''
+
+
+def uses_shadow(body):
+    return "'callshadow'" in repr(body)
+
+
 def uses_internal(body):
     """does the body call helper / fsq (needs the CONTAINS part)?"""
     txt = repr(body)
@@ -283,9 +303,13 @@ def kernel_text(kname, body, extra_locals=(), force_contains=False):
     pr.ind = 2
     for i, s in enumerate(body):
         pr.stmt(s, (i,))
-    if force_contains or uses_internal(body):
+    if force_contains or uses_internal(body) or uses_shadow(body):
         pr.lines.append('contains')
-        pr.lines += [ln[2:] if ln.startswith('  ') else ln for ln in HELPER.rstrip('\n').split('\n')]
+        if force_contains or uses_internal(body):
+            pr.lines += [ln[2:] if ln.startswith('  ') else ln for ln in HELPER.rstrip('\n').split('\n')]
+        if uses_shadow(body):
+            # an internal procedure with the same name as the (earlier) module procedure `ext`
+            pr.lines += [ln[2:] if ln.startswith('  ') else ln for ln in SHADOW.rstrip('\n').split('\n')]
     pr.lines.append(f'end subroutine {kname}')
     pr.where += [None] * (len(pr.lines) - len(pr.where))
     line_of = {p: n + 1 for n, p in enumerate(pr.where) if p is not None}
@@ -338,7 +362,7 @@ def driver_text(mod, knames, grid=None):
     delimiter-framed results."""
     grid = grid or input_grid()
     L = ['program drv', f'  use {mod}', '  implicit none',
-         '  integer :: n, p, q, e, g', '  real :: x, y', '  logical :: lg',
+         '  integer :: n, p, q, e, g, e1, e2, e3', '  real :: x, y', '  logical :: lg',
          '  integer, allocatable :: ia(:), ib(:)', '  real, allocatable :: ra(:)', '  type(tt) :: t',
          f'  integer, parameter :: ng = {len(grid)}',
          '  integer, parameter :: gn(ng) = (/ ' + ', '.join(str(g['n']) for g in grid) + ' /)',
@@ -351,6 +375,8 @@ def driver_text(mod, knames, grid=None):
     for kn in knames:
         L += ['    call setup()', f"    write(*,'(A,1X,A,1X,I0)') '#BEGIN', '{kn}', g",
               f'    call {kn}(n, p, q, x, y, lg, ia, ib, ra, t)', '    call dump()',
+              '    e1 = 0; e2 = 5; e3 = 7', '    call ext(2, e1, e2, e3)',
+              "    write(*,'(A,3(1X,I0))') 'X', e1, e2, e3",
               f"    write(*,'(A,1X,A,1X,I0)') '#END', '{kn}', g"]
     L.append('  end do')
     L += ['contains', '  subroutine setup()',
@@ -384,6 +410,7 @@ def expected_dump(st, printed):
     out.append('IB ' + ' '.join(str(v) for v in st['ib'][1]))
     out.append('RA ' + ' '.join(es(v) for v in st['ra'][1]))
     out.append('T ' + ' '.join([str(st['t%m'])] + [es(v) for v in st['t%v'][1]]))
+    out.append('X 7 6 9')      # the module procedure ext called by the driver: must still be the module's own
     return out
 
 
@@ -840,6 +867,11 @@ class Interp:
                 self.write_loc(nd, id_, _check(d + a))
             else:
                 raise Invalid(f'call {s[1]}')
+        elif k == 'callshadow':
+            a = self.ex(s[1])
+            name, idx = self.lval(s[2])
+            b = self.read_loc(name, idx)
+            self.write_loc(name, idx, _check(b + 3 * a - 1))
         elif k == 'exit':
             raise _Exit(s[1])
         elif k == 'cycle':
